@@ -28,7 +28,7 @@ inductive Err where
   | valueError      -- raised by mloda's parameter checks
   | typeError       -- raised by Python / pyarrow / pandas on operands of the wrong type
   | notImplemented  -- `do_custom_filter`
-  | keyError        -- pandas column lookup with a `FeatureName` object
+  | keyError        -- pandas column lookup with a `FeatureName` object (pre-fix variant only)
   | notModelled     -- outside the modelled fragment
   deriving DecidableEq, Repr, Inhabited
 
@@ -467,9 +467,10 @@ end ArrowSem
 
 /-! ## `PandasSem`: ASSUMED semantics of the pandas calls made by `PandasFilterEngine`
 
-* `data[filter_feature.name]` is called with a `FeatureName` *object*. With the default column index of pandas 3
-  (`str` dtype) the lookup raises `KeyError` (`strIndex = true`); with an `object`-dtype column index the lookup falls
-  back to `hash` / `==` and finds the column (`strIndex = false`).
+* the frame is indexed with `data[str(filter_feature.name)]` (since commit 15de8bc), so the column is found whatever the
+  dtype of the column index. `legacyKey = true` is the explicitly named PRE-FIX variant kept for the regression
+  statements only (`data[filter_feature.name]` with the `FeatureName` object raised `KeyError` on the `str`-dtype column
+  index that pandas 3 creates by default); the code that exists is `legacyKey = false` (`PandasSem.run`).
 * `Series >= scalar` etc.: a column of one class against a scalar of the other raises `TypeError` (for a numeric column
   independent of the rows; a `str` column only when it has a non-missing cell); a missing cell compares false.
   `Series == scalar` never raises.
@@ -489,46 +490,46 @@ def typeCheck (ct : ColClass) (hasValue : Bool) (s : Val) : Except Err Unit :=
   else if ct = .str ∧ hasValue = false then .ok ()
   else .error .typeError
 
-def doRange (f : RawFilter) (strIndex : Bool) (ct : ColClass) (rows : List Row) : Except Err (List Row) :=
+def doRange (f : RawFilter) (legacyKey : Bool) (ct : ColClass) (rows : List Row) : Except Err (List Row) :=
   if f.min = .null ∨ f.max = .null then .error .valueError else
-  if strIndex then .error .keyError else
+  if legacyKey then .error .keyError else
   match typeCheck ct (anyValue f.col rows) f.min, typeCheck ct (anyValue f.col rows) f.max with
   | .ok _, .ok _ =>
     if f.maxExclusive then .ok (rows.filter (fun r => leB f.min (r.get f.col) && ltB (r.get f.col) f.max))
     else .ok (rows.filter (fun r => leB f.min (r.get f.col) && leB (r.get f.col) f.max))
   | _, _ => .error .typeError
 
-def doMin (f : RawFilter) (strIndex : Bool) (ct : ColClass) (rows : List Row) : Except Err (List Row) :=
+def doMin (f : RawFilter) (legacyKey : Bool) (ct : ColClass) (rows : List Row) : Except Err (List Row) :=
   if f.value = .null then .error .valueError else
-  if strIndex then .error .keyError else
+  if legacyKey then .error .keyError else
   match typeCheck ct (anyValue f.col rows) f.value with
   | .ok _ => .ok (rows.filter (fun r => leB f.value (r.get f.col)))
   | .error e => .error e
 
-def doMax (f : RawFilter) (strIndex : Bool) (ct : ColClass) (rows : List Row) : Except Err (List Row) :=
+def doMax (f : RawFilter) (legacyKey : Bool) (ct : ColClass) (rows : List Row) : Except Err (List Row) :=
   if f.max ≠ .null then
     if f.min ≠ .null then .error .valueError
-    else if strIndex then .error .keyError
+    else if legacyKey then .error .keyError
     else match typeCheck ct (anyValue f.col rows) f.max with
       | .error e => .error e
       | .ok _ =>
         if f.maxExclusive then .ok (rows.filter (fun r => ltB (r.get f.col) f.max))
         else .ok (rows.filter (fun r => leB (r.get f.col) f.max))
   else if f.value ≠ .null then
-    if strIndex then .error .keyError else
+    if legacyKey then .error .keyError else
     match typeCheck ct (anyValue f.col rows) f.value with
     | .error e => .error e
     | .ok _ => .ok (rows.filter (fun r => leB (r.get f.col) f.value))
   else .error .valueError
 
-def doEqual (f : RawFilter) (strIndex : Bool) (_ct : ColClass) (rows : List Row) : Except Err (List Row) :=
+def doEqual (f : RawFilter) (legacyKey : Bool) (_ct : ColClass) (rows : List Row) : Except Err (List Row) :=
   if f.value = .null then .error .valueError else
-  if strIndex then .error .keyError else
+  if legacyKey then .error .keyError else
   .ok (rows.filter (fun r => pyEq (r.get f.col) f.value))
 
-def doRegex (f : RawFilter) (strIndex : Bool) (ct : ColClass) (rows : List Row) : Except Err (List Row) :=
+def doRegex (f : RawFilter) (legacyKey : Bool) (ct : ColClass) (rows : List Row) : Except Err (List Row) :=
   if f.value = .null then .error .valueError else
-  if strIndex then .error .keyError else
+  if legacyKey then .error .keyError else
   match f.value with
   | .str s =>
     if ct ≠ .str then .error .notModelled else
@@ -540,23 +541,26 @@ def doRegex (f : RawFilter) (strIndex : Bool) (ct : ColClass) (rows : List Row) 
 def isinCell (ct : ColClass) (l : List Val) (x : Val) : Bool :=
   if x = .null then (ct == .str && l.any (· == .null)) else l.any (pyEq x)
 
-def doIsin (f : RawFilter) (strIndex : Bool) (ct : ColClass) (rows : List Row) : Except Err (List Row) :=
+def doIsin (f : RawFilter) (legacyKey : Bool) (ct : ColClass) (rows : List Row) : Except Err (List Row) :=
   match f.values with
   | .none => .error .valueError
-  | .list l => if strIndex then .error .keyError else .ok (rows.filter (fun r => isinCell ct l (r.get f.col)))
-  | .tuple l => if strIndex then .error .keyError else .ok (rows.filter (fun r => isinCell ct l (r.get f.col)))
-  | .scalar _ => if strIndex then .error .keyError else .error .typeError
+  | .list l => if legacyKey then .error .keyError else .ok (rows.filter (fun r => isinCell ct l (r.get f.col)))
+  | .tuple l => if legacyKey then .error .keyError else .ok (rows.filter (fun r => isinCell ct l (r.get f.col)))
+  | .scalar _ => if legacyKey then .error .keyError else .error .typeError
 
-def doFilter (f : RawFilter) (strIndex : Bool) (ct : ColClass) (rows : List Row) : Except Err (List Row) :=
+def doFilter (f : RawFilter) (legacyKey : Bool) (ct : ColClass) (rows : List Row) : Except Err (List Row) :=
   if !homog ct f.col rows then .error .notModelled else
   match filterDispatch f.ftype with
-  | .do_range_filter => doRange f strIndex ct rows
-  | .do_min_filter => doMin f strIndex ct rows
-  | .do_max_filter => doMax f strIndex ct rows
-  | .do_equal_filter => doEqual f strIndex ct rows
-  | .do_regex_filter => doRegex f strIndex ct rows
-  | .do_categorical_inclusion_filter => doIsin f strIndex ct rows
+  | .do_range_filter => doRange f legacyKey ct rows
+  | .do_min_filter => doMin f legacyKey ct rows
+  | .do_max_filter => doMax f legacyKey ct rows
+  | .do_equal_filter => doEqual f legacyKey ct rows
+  | .do_regex_filter => doRegex f legacyKey ct rows
+  | .do_categorical_inclusion_filter => doIsin f legacyKey ct rows
   | .do_custom_filter => .error .notImplemented
+
+/-- the pandas engine as it exists now: the column is looked up by its name string -/
+def run (f : RawFilter) (ct : ColClass) (rows : List Row) : Except Err (List Row) := doFilter f false ct rows
 
 end PandasSem
 
